@@ -24,9 +24,29 @@ package main
 //	copydata a p b q      copy /storage/d<p> of a and save the copy to /storage/d<q> of b
 //	dropdata a p          load /storage/d<p> and drop it
 //	setdata a p i m       load, replace element i by a fresh array of m Ints (overwrite), save back
+//
+// optional-typed elements / fields holding immutable values that are too large to be stored inline
+// (atree keeps them in a slab of their own), all through a borrowed reference to the resource at a.p:
+//	addopt a p n          opt.append(<string of n characters>?)  (n = 0: nil)      opt: [String?]
+//	addbig a p n          big.append(<integer of n bytes>?)      (n = 0: nil)      big: [Int?]
+//	copyopt a p i         let v = ref.opt[i mod length]; ref.appendOpt(v)   (copy of a stored optional, stored again)
+//	copybig a p i         the same for big
+//	optto a p i b q       copy opt[i] of a.p into the opt of the resource at b.q
+//	optone a p i          one = opt[i]   (field of type String?; the old value is overwritten)
+//	oneopt a p            opt.append(one)
+//	optod a p i k         od[k] = opt[i]        od: {String: String?}
+//	odopt a p k           opt.append(od[k] ?? nil)
+//	optpath a p i b q     save a copy of opt[i] to /storage/o<q> of b (whatever was there is loaded and dropped)
+//	pathopt a p b q       copy /storage/o<q> of b and append it to opt of a.p
+//	setsd a p k m         sd[k] = array of m Ints      sd: {String: [Int]}
+//	rmsd a p k            sd.remove(key: k)            (single-entry removal through a reference)
+//	clrsd a p k           sd[k] = nil
+//	readall a p           read every element / entry / key of the resource at a.p through a reference
+// dictionary keys k: x, y, z are short; K<n> stands for a key of 260 + 40 n characters (stored in a slab of its own)
 
 import (
 	"fmt"
+	"os"
 	"strconv"
 	"strings"
 	"time"
@@ -53,7 +73,29 @@ access(all) contract C {
         access(all) var kids: @[R]
         access(all) var dict: @{String: R}
         access(all) var data: [Int]
-        init() { self.kids <- []; self.dict <- {}; self.data = [] }
+        access(all) var opt: [String?]
+        access(all) var big: [Int?]
+        access(all) var one: String?
+        access(all) var od: {String: String?}
+        access(all) var sd: {String: [Int]}
+        init() { self.kids <- []; self.dict <- {}; self.data = []; self.opt = []; self.big = []; self.one = nil; self.od = {}; self.sd = {} }
+        access(all) fun appendOpt(_ v: String?) { self.opt.append(v) }
+        access(all) fun appendBig(_ v: Int?) { self.big.append(v) }
+        access(all) fun setOne(_ v: String?) { self.one = v }
+        access(all) fun putOD(_ k: String, _ v: String?) { self.od[k] = v }
+        access(all) fun setSD(_ k: String, _ m: Int) { self.sd[k] = C.data(1, m)[0] }
+        access(all) fun rmSD(_ k: String) { self.sd.remove(key: k) }
+        access(all) fun clrSD(_ k: String) { self.sd[k] = nil }
+        access(all) fun readAll(): Int {
+            var n = 0
+            for v in self.opt { n = n + (v?.length ?? 0) }
+            for v in self.big { if let b = v { n = n + (b > 0 ? 1 : 0) } }
+            n = n + (self.one?.length ?? 0)
+            for k in self.od.keys { let v = self.od[k] ?? nil; n = n + k.length + (v?.length ?? 0) }
+            for k in self.sd.keys { n = n + k.length + self.sd[k]!.length }
+            for k in self.dict.keys { n = n + k.length }
+            return n
+        }
         access(all) fun addKid(_ r: @R) { self.kids.append(<-r) }
         access(all) fun takeKid(): @R? {
             if self.kids.length == 0 { return nil }
@@ -105,8 +147,69 @@ func healthTxSource(tok []string) (src string, ok bool) {
 	acct := func(i int) string { return "s" + arg(i) }
 	rp := func(i int) string { return "/storage/r" + arg(i) }
 	dp := func(i int) string { return "/storage/d" + arg(i) }
+	// a string literal of n characters / an integer of n bytes; 0 = nil
+	strLit := func(i int) string {
+		n, _ := strconv.Atoi(arg(i))
+		if n == 0 {
+			return "nil"
+		}
+		return `"` + strings.Repeat("s", n) + `"`
+	}
+	bigLit := func(i int) string {
+		n, _ := strconv.Atoi(arg(i))
+		if n == 0 {
+			return "nil"
+		}
+		return fmt.Sprintf("(1 << %d) + 1", 8*n-1)
+	}
+	ref := func(i int) string {
+		return fmt.Sprintf(`let ref = %s.storage.borrow<&C.R>(from: %s) ?? panic("none")`, acct(i), rp(i+1))
+	}
+	// v = a copy of opt[i mod length] read through the reference (nil when there is no element)
+	optAt := func(i int) string {
+		return fmt.Sprintf(`var v: String? = nil
+            if ref.opt.length > 0 { v = ref.opt[Int(%s) %% ref.opt.length] }`, arg(i))
+	}
+	op := func(i int) string { return "/storage/o" + arg(i) }
 	var body string
 	switch tok[0] {
+	case "addopt":
+		body = ref(1) + "\n ref.appendOpt(" + strLit(3) + ")"
+	case "addbig":
+		body = ref(1) + "\n ref.appendBig(" + bigLit(3) + ")"
+	case "copyopt":
+		body = ref(1) + "\n" + optAt(3) + "\n ref.appendOpt(v)"
+	case "copybig":
+		body = ref(1) + fmt.Sprintf(`
+            if ref.big.length > 0 { let v = ref.big[Int(%s) %% ref.big.length]; ref.appendBig(v) }`, arg(3))
+	case "optto":
+		body = ref(1) + "\n" + optAt(3) + fmt.Sprintf(`
+            let dst = %s.storage.borrow<&C.R>(from: %s) ?? panic("none")
+            dst.appendOpt(v)`, acct(4), rp(5))
+	case "optone":
+		body = ref(1) + "\n" + optAt(3) + "\n ref.setOne(v)"
+	case "oneopt":
+		body = ref(1) + "\n let v = ref.one\n ref.appendOpt(v)"
+	case "optod":
+		body = ref(1) + "\n" + optAt(3) + "\n ref.putOD(\"" + healthKey(arg(4)) + "\", v)"
+	case "odopt":
+		body = ref(1) + "\n let v = ref.od[\"" + healthKey(arg(3)) + "\"] ?? nil\n ref.appendOpt(v)"
+	case "optpath":
+		body = ref(1) + "\n" + optAt(3) + fmt.Sprintf(`
+            let old = %s.storage.load<String?>(from: %s)
+            %s.storage.save(v, to: %s)`, acct(4), op(5), acct(4), op(5))
+	case "pathopt":
+		body = ref(1) + fmt.Sprintf(`
+            let v = %s.storage.copy<String?>(from: %s) ?? nil
+            ref.appendOpt(v)`, acct(3), op(4))
+	case "setsd":
+		body = ref(1) + "\n ref.setSD(\"" + healthKey(arg(3)) + "\", " + arg(4) + ")"
+	case "rmsd":
+		body = ref(1) + "\n ref.rmSD(\"" + healthKey(arg(3)) + "\")"
+	case "clrsd":
+		body = ref(1) + "\n ref.clrSD(\"" + healthKey(arg(3)) + "\")"
+	case "readall":
+		body = ref(1) + "\n ref.readAll()"
 	case "save":
 		body = fmt.Sprintf(`%s.storage.save(<- C.make(%s, %s), to: %s)`, acct(1), arg(3), arg(4), rp(2))
 	case "destroy":
@@ -133,11 +236,11 @@ func healthTxSource(tok []string) (src string, ok bool) {
             %s.storage.save(<- k, to: %s)`, acct(1), rp(2), acct(1), rp(3))
 	case "putdict":
 		body = fmt.Sprintf(`let ref = %s.storage.borrow<&C.R>(from: %s) ?? panic("none")
-            ref.putDict("%s", <- C.make(%s, %s))`, acct(1), rp(2), arg(3), arg(4), arg(5))
+            ref.putDict("%s", <- C.make(%s, %s))`, acct(1), rp(2), healthKey(arg(3)), arg(4), arg(5))
 	case "takedict":
 		body = fmt.Sprintf(`let ref = %s.storage.borrow<&C.R>(from: %s) ?? panic("none")
             let k <- ref.takeDict("%s") ?? panic("nokey")
-            destroy k`, acct(1), rp(2), arg(3))
+            destroy k`, acct(1), rp(2), healthKey(arg(3)))
 	case "grow":
 		body = fmt.Sprintf(`let ref = %s.storage.borrow<&C.R>(from: %s) ?? panic("none")
             ref.grow(%s)`, acct(1), rp(2), arg(3))
@@ -166,6 +269,15 @@ func healthTxSource(tok []string) (src string, ok bool) {
             %s
           }
         }`, body, abort), true
+}
+
+// dictionary key for a key token: K<n> = a string over atree's inline limit for map keys
+func healthKey(tok string) string {
+	if strings.HasPrefix(tok, "K") {
+		n, _ := strconv.Atoi(tok[1:])
+		return tok + strings.Repeat("k", 260+40*n-len(tok))
+	}
+	return tok
 }
 
 var healthAccounts = []common.Address{
@@ -288,6 +400,9 @@ func (e *healthEnv) tx(src string, useVM bool) (class, kind string) {
 			ComputationGauge: &cdc.Gauge{Limit: 5000000},
 		},
 	)
+	if err != nil && os.Getenv("VERIF_DEBUG") != "" {
+		fmt.Fprintln(os.Stderr, "health:", cdc.ErrString(err))
+	}
 	return cdc.Classify(err)
 }
 
@@ -373,12 +488,61 @@ func genHealth(c *hx.Ctx) {
 			return 1 + r.Intn(3), r.Intn(4)
 		}
 		steps := 4 + r.Intn(9)
+		// half of the histories concentrate on optional elements / large dictionary keys
+		optHeavy := r.Bool()
+		keys := []string{"x", "y", "z", "K0", "K1", "K3"}
+		// shadow of the keys put into dict / sd of the resource at a path, so that most single-entry
+		// removals hit an existing entry
+		dictKeys := map[string][]string{}
+		sdKeys := map[string][]string{}
+		// a path whose resource has entries (sorted: the choice must not depend on map order)
+		pathWithKeys := func(m map[string][]string) (int, int, bool) {
+			var ks []string
+			for a := 1; a <= 3; a++ {
+				for p := 0; p < 4; p++ {
+					if len(m[key(a, p)]) > 0 {
+						ks = append(ks, key(a, p))
+					}
+				}
+			}
+			if len(ks) == 0 || r.Chance(10) {
+				return 0, 0, false
+			}
+			k := ks[r.Intn(len(ks))]
+			a, _ := strconv.Atoi(k[:1])
+			p, _ := strconv.Atoi(k[2:])
+			return a, p, true
+		}
+		takeKey := func(m map[string][]string, pk string) string {
+			ks := m[pk]
+			if len(ks) == 0 || r.Chance(15) {
+				return r.Pick(keys)
+			}
+			i := r.Intn(len(ks))
+			k := ks[i]
+			m[pk] = append(append([]string{}, ks[:i]...), ks[i+1:]...)
+			return k
+		}
 		var txs []string
 		for s := 0; s < steps; s++ {
 			abort := r.Chance(8)
 			var tx string
-			k := r.Intn(20)
-			if len(occR) == 0 && k < 17 && r.Chance(70) {
+			k := r.Intn(34)
+			if optHeavy && len(occR) > 0 && r.Chance(50) {
+				k = 20 + r.Intn(14)
+			}
+			if len(occR) > 0 && r.Chance(10) {
+				// single-entry insertion / removal in the resource dictionary (keys over the inline limit included)
+				k = 12
+				has := false
+				for _, ks := range dictKeys { //nolint:maprange (only emptiness is used)
+					has = has || len(ks) > 0
+				}
+				if has && r.Bool() {
+					k = 14
+				}
+			}
+			if len(occR) == 0 && (k < 17 || k >= 20) && r.Chance(70) {
 				k = 0 // nothing stored yet: save first
 			}
 			if len(occD) == 0 && k >= 18 && r.Chance(70) {
@@ -396,6 +560,8 @@ func genHealth(c *hx.Ctx) {
 				tx = fmt.Sprintf("destroy %d %d", a, p)
 				if !abort && ok {
 					delete(occR, key(a, p))
+					delete(dictKeys, key(a, p))
+					delete(sdKeys, key(a, p))
 				}
 			case k < 6:
 				a, p, ok := pickOcc(occR)
@@ -404,6 +570,9 @@ func genHealth(c *hx.Ctx) {
 				if !abort && ok && !occR[key(b, q)] {
 					delete(occR, key(a, p))
 					occR[key(b, q)] = true
+					dictKeys[key(b, q)], sdKeys[key(b, q)] = dictKeys[key(a, p)], sdKeys[key(a, p)]
+					delete(dictKeys, key(a, p))
+					delete(sdKeys, key(a, p))
 				}
 			case k < 8:
 				a, p, _ := pickOcc(occR)
@@ -422,10 +591,21 @@ func genHealth(c *hx.Ctx) {
 				// whether it commits depends on the kids; the shadow is only a heuristic here
 			case k < 14:
 				a, p, _ := pickOcc(occR)
-				tx = fmt.Sprintf("putdict %d %d %s %d %d", a, p, r.Pick([]string{"x", "y", "z"}), r.Intn(3), 1+r.Intn(3))
+				k := r.Pick(keys)
+				tx = fmt.Sprintf("putdict %d %d %s %d %d", a, p, k, r.Intn(3), 1+r.Intn(3))
+				if !abort {
+					dictKeys[key(a, p)] = append(dictKeys[key(a, p)], k)
+				}
 			case k < 15:
 				a, p, _ := pickOcc(occR)
-				tx = fmt.Sprintf("takedict %d %d %s", a, p, r.Pick([]string{"x", "y", "z"}))
+				if a2, p2, ok := pathWithKeys(dictKeys); ok {
+					a, p = a2, p2
+				}
+				if abort {
+					tx = fmt.Sprintf("takedict %d %d %s", a, p, r.Pick(keys))
+				} else {
+					tx = fmt.Sprintf("takedict %d %d %s", a, p, takeKey(dictKeys, key(a, p)))
+				}
 			case k < 16:
 				a, p, _ := pickOcc(occR)
 				tx = fmt.Sprintf("grow %d %d %d", a, p, []int{1, 10, 40, 120, 300}[r.Intn(5)])
@@ -444,6 +624,57 @@ func genHealth(c *hx.Ctx) {
 				tx = fmt.Sprintf("copydata %d %d %d %d", a, p, b, q)
 				if !abort && ok && !occD[key(b, q)] {
 					occD[key(b, q)] = true
+				}
+			case k >= 20:
+				a, p, _ := pickOcc(occR)
+				strSizes := []int{0, 5, 200, 300, 600, 600, 1500}
+				switch k {
+				case 20, 21, 22:
+					tx = fmt.Sprintf("addopt %d %d %d", a, p, strSizes[r.Intn(len(strSizes))])
+				case 23:
+					tx = fmt.Sprintf("addbig %d %d %d", a, p, []int{0, 8, 300, 600, 1200}[r.Intn(5)])
+				case 24, 25:
+					tx = fmt.Sprintf("copyopt %d %d %d", a, p, r.Intn(4))
+				case 26:
+					tx = fmt.Sprintf("copybig %d %d %d", a, p, r.Intn(4))
+				case 27:
+					b, q, _ := pickOcc(occR)
+					tx = fmt.Sprintf("optto %d %d %d %d %d", a, p, r.Intn(4), b, q)
+				case 28:
+					if r.Bool() {
+						tx = fmt.Sprintf("optone %d %d %d", a, p, r.Intn(4))
+					} else {
+						tx = fmt.Sprintf("oneopt %d %d", a, p)
+					}
+				case 29:
+					if r.Bool() {
+						tx = fmt.Sprintf("optod %d %d %d %s", a, p, r.Intn(4), r.Pick([]string{"x", "K1"}))
+					} else {
+						tx = fmt.Sprintf("odopt %d %d %s", a, p, r.Pick([]string{"x", "K1"}))
+					}
+				case 30:
+					if r.Bool() {
+						tx = fmt.Sprintf("optpath %d %d %d %d %d", a, p, r.Intn(4), 1+r.Intn(3), r.Intn(2))
+					} else {
+						tx = fmt.Sprintf("pathopt %d %d %d %d", a, p, 1+r.Intn(3), r.Intn(2))
+					}
+				case 31:
+					k := r.Pick(keys)
+					tx = fmt.Sprintf("setsd %d %d %s %d", a, p, k, []int{0, 3, 50, 150}[r.Intn(4)])
+					if !abort {
+						sdKeys[key(a, p)] = append(sdKeys[key(a, p)], k)
+					}
+				case 32:
+					k := r.Pick(keys)
+					if a2, p2, ok := pathWithKeys(sdKeys); ok {
+						a, p = a2, p2
+					}
+					if !abort {
+						k = takeKey(sdKeys, key(a, p))
+					}
+					tx = fmt.Sprintf("%s %d %d %s", r.Pick([]string{"rmsd", "rmsd", "clrsd"}), a, p, k)
+				default:
+					tx = fmt.Sprintf("readall %d %d", a, p)
 				}
 			default:
 				a, p, ok := pickOcc(occD)
